@@ -18,14 +18,22 @@ def main(tier: str) -> int:
                 for ch in SIGMA:       # split by first character over processes (same bound, shorter wall time)
                     conds.append(Cond(M, "strop_ok", 600, 120, dict(C09_LANG=lang, C09_TYPE=ty, C09_LEN="2", C09_FIRST=ch)))
         for lang in ("c", "py"):
-            conds.append(Cond(M, "result_independent_of_earlier_language_objects", 900, 300, dict(C09_LANG=lang, C09_TYPE="any")))
+            for of in ("0", "1"):
+                conds.append(Cond(M, "result_independent_of_earlier_language_objects", 900, 300, dict(C09_LANG=lang, C09_TYPE="any", C09_OTHER_FIRST=of)))
+        for lang, nch in (("c", 2), ("cpp", 4), ("py", 10)):
+            for k in range(nch):
+                conds.append(Cond(M, "reserved_word_never_comes_back", 900, 120, dict(C09_LANG=lang, C09_TYPE="any", C09_CHUNK=str(k), C09_NCHUNKS=str(nch))))
         rep.bounds = dict(token_length="1..2", alphabet="12 class representatives: a A 1 _ space tab - e-acute i f d o", id_types="any, path, macro", languages="c, cpp, py",
+                          reserved_words="every ISO C11 / C++17 keyword resp. every Python keyword and builtin name, alone and followed by an underscore (id type any)",
                           process_history="a second language object with another reserved-word list created and used before / after (tokens over {a,_}, length <= 2)")
     else:
         for lang in ("c", "cpp", "py"):
             for ty in ("any", "path", "macro", "typedef", "function", "enum"):
                 conds.append(Cond(M, "strop_ok", 2400, 120, dict(C09_LANG=lang, C09_TYPE=ty, C09_LEN="2")))
             conds.append(Cond(M, "result_independent_of_earlier_language_objects", 2400, 300, dict(C09_LANG=lang, C09_TYPE="any")))
+            for ty in ("any", "typedef", "macro"):
+                for k in range(8):
+                    conds.append(Cond(M, "reserved_word_never_comes_back", 2400, 120, dict(C09_LANG=lang, C09_TYPE=ty, C09_CHUNK=str(k), C09_NCHUNKS="8")))
             for ch in SIGMA:
                 conds.append(Cond(M, "strop_ok", 3000, 120, dict(C09_LANG=lang, C09_TYPE="any", C09_LEN="3", C09_FIRST=ch)))
         rep.bounds = dict(token_length="1..2 for six id types; 1..3 for type 'any' (split by first character)", alphabet="12 class representatives",
